@@ -231,19 +231,10 @@ theorem kpM2eLoop_exit (fuel : Nat) (e M X X1 R : ℝ) (hX : X1 = kpM2eNext X e 
 
 theorem kpM2eTol_pos : (0 : ℝ) < kpM2eTol := by unfold kpM2eTol; norm_num
 
-/- Full statement (FALSE of the current code, known finding C05-m2e-no-return-ell): "for every bound orbit and every Δt
-   `M2E` returns, and the returned anomaly solves Kepler's equation for the advanced mean anomaly".  The Newton iteration
-   started at `M ∓ e` with `M = M₀ + n Δt` several revolutions away can fall into a cycle; the code then never returns
-   (e.g. e = 0.82598, M = 25.953).  Proved: partial correctness — IF the loop exits. -/
-/-- **The propagated state's eccentric anomaly solves Kepler's equation for the advanced mean anomaly** (bound orbits; every
-fuel; hypothesis: the loop exited): `|E − e sin E − (M + n Δt)| < 2·tol·(1 + e)`, `tol` = 1e-8 in the source. -/
-theorem kepler_anomaly_residual_partial (fuel : Nat) (mu : ℝ) (x : Elts) (dt E : ℝ) (h0 : 0 ≤ x.e) (h1 : x.e < 1)
-    (h : kpM2e fuel x.e (keplerStep mu x dt).M = some E) :
-    |E - x.e * Real.sin E - (x.M + meanMotion mu x.a * dt)| < 2 * kpM2eTol * (1 + x.e) := by
-  have hM : (keplerStep mu x dt).M = x.M + meanMotion mu x.a * dt := by simp [keplerStep_eq]
-  rw [hM] at h
-  generalize x.M + meanMotion mu x.a * dt = M at h ⊢
-  generalize x.e = e at h h0 h1 ⊢
+/-- residual after the loop, ellipse, any start value `X0`, any anomaly `M` the loop works on -/
+theorem m2e_loop_residual_elliptic (fuel : Nat) (e M X0 E : ℝ) (h0 : 0 ≤ e) (h1 : e < 1)
+    (h : kpM2eLoop fuel e M X0 (kpM2eNext X0 e M) = some E) :
+    |E - e * Real.sin E - M| < 2 * kpM2eTol * (1 + e) := by
   obtain ⟨X, hR, hd⟩ := kpM2eLoop_exit fuel e M _ _ E rfl h
   have hD : 0 < 1 - e * Real.cos X := by nlinarith [Real.neg_one_le_cos X, Real.cos_le_one X]
   have hD2 : 1 - e * Real.cos X ≤ 1 + e := by nlinarith [Real.neg_one_le_cos X, Real.cos_le_one X]
@@ -265,9 +256,57 @@ theorem kepler_anomaly_residual_partial (fuel : Nat) (mu : ℝ) (x : Elts) (dt E
     _ ≤ |E - X| + |e * (Real.sin E - Real.sin X)| + |M - X + e * Real.sin X| := by gcongr; exact abs_sub _ _
     _ < 2 * kpM2eTol * (1 + e) := by nlinarith
 
+/-- the number of whole revolutions `Form.M2E` sets aside for an ellipse -/
+def revsOf (M : ℝ) : ℤ := ⌊(M + Real.pi) / (2 * Real.pi)⌋
+
+theorem reduced_mem (M : ℝ) : -Real.pi ≤ M - 2 * Real.pi * revsOf M ∧ M - 2 * Real.pi * revsOf M < Real.pi := by
+  have hp := Real.pi_pos
+  have h2 : (0 : ℝ) < 2 * Real.pi := by positivity
+  have hl := Int.floor_le ((M + Real.pi) / (2 * Real.pi))
+  have hu := Int.lt_floor_add_one ((M + Real.pi) / (2 * Real.pi))
+  rw [le_div_iff₀ h2] at hl
+  rw [div_lt_iff₀ h2] at hu
+  unfold revsOf
+  constructor <;> nlinarith
+
+/-- **What `Form.M2E` computes for an ellipse** (the code after fix b41fd8b): the anomaly is reduced to `[-π, π)`, the
+Newton loop runs on the reduced anomaly from the start value `M' ∓ e`, and the whole revolutions are added back. -/
+theorem kpM2e_elliptic_spec (fuel : Nat) (e M E : ℝ) (h1 : e < 1) (h : kpM2e fuel e M = some E) :
+    ∃ X1, kpM2eLoop fuel e (M - 2 * Real.pi * revsOf M) (kpM2eStart e (M - 2 * Real.pi * revsOf M))
+        (kpM2eNext (kpM2eStart e (M - 2 * Real.pi * revsOf M)) e (M - 2 * Real.pi * revsOf M)) = some X1 ∧
+      E = X1 + 2 * Real.pi * revsOf M := by
+  simp only [kpM2e, kpM2eArg, kpM2eOffset, kpM2eResult, if_pos h1, Option.map_eq_some_iff, floorR, pi] at h
+  obtain ⟨X1, hl, hE⟩ := h
+  exact ⟨X1, hl, hE.symm⟩
+
+/-- **The propagated state's eccentric anomaly solves Kepler's equation for the advanced mean anomaly** (bound orbits; every
+fuel; hypothesis: the loop exited — see `kepler_m2e_terminates_partial` for when it does):
+`|E − e sin E − (M + n Δt)| < 2·tol·(1 + e)`, `tol` = 1e-8 in the source. -/
+theorem kepler_anomaly_residual (fuel : Nat) (mu : ℝ) (x : Elts) (dt E : ℝ) (h0 : 0 ≤ x.e) (h1 : x.e < 1)
+    (h : kpM2e fuel x.e (keplerStep mu x dt).M = some E) :
+    |E - x.e * Real.sin E - (x.M + meanMotion mu x.a * dt)| < 2 * kpM2eTol * (1 + x.e) := by
+  have hM : (keplerStep mu x dt).M = x.M + meanMotion mu x.a * dt := by simp [keplerStep_eq]
+  rw [hM] at h
+  generalize x.M + meanMotion mu x.a * dt = M at h ⊢
+  generalize x.e = e at h h0 h1 ⊢
+  obtain ⟨X1, hl, hE⟩ := kpM2e_elliptic_spec fuel e M E h1 h
+  have hr := m2e_loop_residual_elliptic fuel e _ _ X1 h0 h1 hl
+  have hs : Real.sin (X1 + 2 * Real.pi * revsOf M) = Real.sin X1 := by
+    rw [mul_comm (2 * Real.pi)]; exact Real.sin_add_int_mul_two_pi X1 _
+  rw [hE, hs]
+  have : X1 + 2 * Real.pi * ↑(revsOf M) - e * Real.sin X1 - M = X1 - e * Real.sin X1 - (M - 2 * Real.pi * ↑(revsOf M)) := by ring
+  rw [this]; exact hr
+
 /-- the loop does return values: circular orbit, `M = 0`: one test of the exit condition -/
 example : kpM2e 1 0 0 = some 0 := by
-  simp [kpM2e, kpM2eLoop, kpM2eStart, kpM2eNext, kpM2eContinue, kpM2eTol]
+  have hp := Real.pi_pos
+  have hf : ⌊Real.pi / (2 * Real.pi)⌋ = 0 := by
+    rw [Int.floor_eq_zero_iff]; constructor
+    · positivity
+    · rw [div_lt_one (by positivity)]; linarith
+  have ha : kpM2eArg 0 0 = 0 := by simp [kpM2eArg, floorR, pi, hf]
+  have ho : kpM2eOffset 0 0 = 0 := by simp [kpM2eOffset, floorR, pi, hf]
+  simp [kpM2e, ha, ho, kpM2eLoop, kpM2eStart, kpM2eNext, kpM2eContinue, kpM2eTol, kpM2eResult]
   norm_num
 
 /-! ## Kepler — cartesian level, through the form round trip (hypotheses from C01)
